@@ -18,6 +18,7 @@ CONSTANTS
   MaxHsFail = %(MaxHsFail)d
   MaxReads = %(MaxReads)d
   AllowClose = %(AllowClose)s
+  LateOk = %(LateOk)s
   FixWL = %(FixWL)s
   GenCanon = TRUE
 INVARIANTS AcceptedExactlyOnce OrderPreserved RedialKeepsIdAndFlag PingFiltered ReadsContinue SummaryAgrees
@@ -26,7 +27,7 @@ CHECK_DEADLOCK FALSE
 """
 
 DEFAULTS = dict(NW=2, Budget=2, MaxWrites=2, MaxUWFail=1, MaxUR=0, MaxPing=0, MaxRErr=0, MaxInc=3,
-                MaxDialFail=2, MaxHsFail=1, MaxReads=0, AllowClose="FALSE")
+                MaxDialFail=2, MaxHsFail=1, MaxReads=0, AllowClose="FALSE", LateOk="FALSE")
 
 # generator families (as-coded model, canonical goroutine schedule): name -> bounds
 FAM_QUICK = {
@@ -36,6 +37,8 @@ FAM_QUICK = {
     "reads": dict(NW=1, MaxWrites=1, MaxUWFail=1, MaxUR=2, MaxPing=1, MaxRErr=1, MaxReads=1),
     # Close at every quiescent point, before/after failures, with pending Reads
     "close": dict(NW=2, MaxWrites=2, MaxUWFail=1, MaxUR=1, MaxRErr=1, MaxReads=1, MaxHsFail=0, AllowClose="TRUE"),
+    # a Write in flight while the read loop replaces the connection returns nil late (accepted before the break) or fails late
+    "lateok": dict(NW=1, MaxWrites=2, MaxUWFail=1, MaxUR=1, MaxRErr=1, MaxReads=0, MaxHsFail=0, MaxDialFail=1, LateOk="TRUE"),
 }
 FAM_THOROUGH = {
     "writers3": dict(NW=2, MaxWrites=3, MaxUWFail=3, MaxDialFail=3),
@@ -96,7 +99,7 @@ def gen(ctx, name, bounds, fix, seen):
         scs.append({"id": "C18/%s/%d" % (name, k), "kind": "reconnect", "wdMs": 2000,
                     "p": {"budget": p["Budget"], "dials": [o["mode"] for o in ops if o["a"] == "dial"],
                           "tid": ("" if k % 2 else "verif-c18-%d" % k),
-                          "model": "fix" if fix else "coded", "stuck": seqs[q],
+                          "model": "fix" if fix else "coded", "stuck": seqs[q], "lateOk": p["LateOk"] == "TRUE",
                           # redials the model does not perform: fail, or (every other Close scenario) succeed -- a transport that
                           # keeps redialling after Close then stays alive and its callers hang
                           "after": "ok" if (k // 2) % 2 == 0 and any(o["a"] == "close" for o in ops) else "fail",
@@ -200,7 +203,7 @@ def run():
         for e in st_lines:
             f.write(json.dumps(e) + "\n")
     consts = dict(DEFAULTS)
-    consts.update(FixWL="FALSE", GenCanon="FALSE")
+    consts.update(FixWL="FALSE", GenCanon="FALSE", LateOk="FALSE")
     verdicts, r = ctx.validate(combined, "MonC18", consts=consts)
     for sc, exp in st_expect.items():
         got = sorted((verdicts.get(sc) or {}).get("bad", ["<no verdict>"]))
